@@ -1013,13 +1013,13 @@ def aux_case(case):
         if not r.check(err is None and m is not None, 'prebuilt-components', 'prebuilt/raised/%s/%s' % (tag, exc_sig(err)),
                        exc=repr(err)):
             return r
-        got = {'planet': m._planet, 'star': m._star, 'temperature': m._temperature_profile,
-               'pressure': m.pressure, 'chemistry': m._chemistry}
+        got = {'planet': m.planet, 'star': m.star, 'temperature': m.temperature, 'pressure': m.pressure,
+               'chemistry': m.chemistry}
         facts = {'planet': lambda o: (round(float(o.mass), 9) if o is not None else None),
                  'star': lambda o: (float(o.temperature) if o is not None else None),
                  'temperature': lambda o: (float(o.isoTemperature) if o is not None else None),
                  'pressure': lambda o: (int(o.nLayers) if o is not None else None),
-                 'chemistry': lambda o: (float(np.ravel(o._fill_ratio)[0]) if o is not None else None)}
+                 'chemistry': lambda o: (float(o.fitting_parameters()['He_H2'][2]()) if o is not None else None)}
         from_file = {'planet': 0.7, 'star': 4321.0, 'temperature': 1234.0, 'pressure': 7, 'chemistry': 0.3}
         for k in sorted(got):
             if k in given:
